@@ -161,6 +161,7 @@ class Recorder:
     def __init__(self, max_samples=3):
         self.evaluations = 0
         self.nontrivial = set()
+        self.extra_nontrivial = 0
         self.classes = Counter()
         self.samples = []
         self.max_samples = max_samples
@@ -170,10 +171,16 @@ class Recorder:
         self.first_failure_time = None
 
     def record(self, case, info):
-        self.evaluations += 1
         info = info or {}
+        # a case may stand for many enumerated sub-cases (exhaustive boxes): it then reports how
+        # many it evaluated and how many of them were (distinct by construction and) non-trivial
+        self.evaluations += int(info.get("weight", 1))
+        self.extra_nontrivial += int(info.get("nontrivial_weight", 0))
         for c in info.get("classes", ()):
-            self.classes[c] += 1
+            if isinstance(c, (list, tuple)):
+                self.classes[c[0]] += int(c[1])
+            else:
+                self.classes[c] += 1
         if info.get("nontrivial"):
             h = case_hash(case)
             if h not in self.nontrivial:
@@ -254,6 +261,7 @@ def _shard_result(rec: Recorder, t0, violation=None, harness=None):
     return {
         "evaluations": rec.evaluations,
         "nontrivial": list(rec.nontrivial),
+        "extra_nontrivial": rec.extra_nontrivial,
         "classes": dict(rec.classes),
         "samples": rec.samples,
         "known_hits": dict(rec.known_hits),
@@ -388,7 +396,7 @@ def run_shard(args):
     except BaseException as e:  # noqa: BLE001
         tb = traceback.format_exc()
         return {
-            "evaluations": 0, "nontrivial": [], "classes": {}, "samples": [], "known_hits": {},
+            "evaluations": 0, "nontrivial": [], "extra_nontrivial": 0, "classes": {}, "samples": [], "known_hits": {},
             "violation": None, "harness": f"shard crashed: {type(e).__name__}: {e}\n{tb}",
             "wall": time.time() - t0,
         }
@@ -550,6 +558,7 @@ def run_property(prop: str, tier: str, seed: int, only_facets=None, scale: float
     per_facet = {}
     total_eval = 0
     all_nontrivial = set()
+    total_extra_nontrivial = 0
     samples = []
     rules = []
     exhaustive_flags = []
@@ -559,6 +568,7 @@ def run_property(prop: str, tier: str, seed: int, only_facets=None, scale: float
             continue
         rs = results[fi]
         ev = sum(r["evaluations"] for r in rs)
+        extra_nt = sum(r.get("extra_nontrivial", 0) for r in rs)
         nt = set()
         cl = Counter()
         for r in rs:
@@ -576,7 +586,7 @@ def run_property(prop: str, tier: str, seed: int, only_facets=None, scale: float
         per_facet[facet.name] = {
             "kind": facet.kind,
             "evaluations": ev,
-            "distinct_nontrivial": len(nt),
+            "distinct_nontrivial": len(nt) + extra_nt,
             "classes": dict(sorted(cl.items())),
             "shards": len(rs),
             "wall_s_sum": round(sum(r["wall"] for r in rs), 2),
@@ -585,6 +595,7 @@ def run_property(prop: str, tier: str, seed: int, only_facets=None, scale: float
         }
         total_eval += ev
         all_nontrivial.update(f"{facet.name}:{h}" for h in nt)
+        total_extra_nontrivial += extra_nt
         for s in fs:
             samples.append({"facet": facet.name, "case": s})
         rules.append(f"[{facet.name}] {facet.rule}")
@@ -608,7 +619,7 @@ def run_property(prop: str, tier: str, seed: int, only_facets=None, scale: float
         "level": LEVEL,
         "coverage": {
             "evaluations": total_eval + n_reg,
-            "distinct_nontrivial": len(all_nontrivial),
+            "distinct_nontrivial": len(all_nontrivial) + total_extra_nontrivial,
             "rule": " || ".join(rules),
             "samples": samples,
             "exhaustive": bool(exhaustive_flags) and all(exhaustive_flags) and not violations,
